@@ -6,8 +6,11 @@ package c15
 // DataCorruptionError, reopen).
 
 import (
+	bytes2 "bytes"
+	"encoding/binary"
 	"errors"
 	"fmt"
+	"hash/crc32"
 	"io"
 	"os"
 	"os/signal"
@@ -21,6 +24,9 @@ import (
 	"github.com/tendermint/tendermint/libs/autofile"
 	tmos "github.com/tendermint/tendermint/libs/os"
 	"github.com/tendermint/tendermint/libs/verifhook"
+	tmcons "github.com/tendermint/tendermint/proto/tendermint/consensus"
+	tmcrypto "github.com/tendermint/tendermint/proto/tendermint/crypto"
+	tmproto "github.com/tendermint/tendermint/proto/tendermint/types"
 	"github.com/tendermint/tendermint/types"
 )
 
@@ -149,7 +155,11 @@ func openLive(m *model, dir string, rep *reporter) (*live, error) {
 	if err != nil {
 		return nil, harnessErr{"NewWAL: " + err.Error()}
 	}
-	wal.SetFlushInterval(time.Hour)
+	if m.FlushEvery > 0 {
+		wal.SetFlushInterval(m.FlushEvery)
+	} else {
+		wal.SetFlushInterval(time.Hour)
+	}
 	lv := &live{dir: dir, wal: wal, w: w, m: m, rep: rep}
 	var auto *rec
 	if before == 0 {
@@ -408,8 +418,19 @@ func (lv *live) applyEvents(r *rec, l0 int64) error {
 func (lv *live) measure(r *rec, l0 int64, acked bool) error {
 	m := lv.m
 	h := m.head()
-	d := statSize(headPath(lv.dir))
-	l1 := d + int64(lv.wal.Group().Buffered())
+	// (file size, buffered) is read twice until stable: the periodic flush of
+	// BaseWAL may move bytes from the buffer to the file in between
+	var d, l1 int64
+	for try := 0; ; try++ {
+		d1 := statSize(headPath(lv.dir))
+		b1 := int64(lv.wal.Group().Buffered())
+		d2 := statSize(headPath(lv.dir))
+		b2 := int64(lv.wal.Group().Buffered())
+		if (d1 == d2 && b1 == b2) || try > 1000 {
+			d, l1 = d2, d2+b2
+			break
+		}
+	}
 	if r != nil && r.Len < 0 {
 		r.Len = l1 - l0
 		if r.Len < 8 {
@@ -465,6 +486,8 @@ const (
 	opFlush
 	opEndSync
 	opEndWrite
+	opPartWrite // msgInfo{BlockPartMessage} through Write
+	opPartSync  // ... through WriteSync
 )
 
 type opSpec struct {
@@ -561,6 +584,14 @@ func (lv *live) do(op opSpec) error {
 		m.NextID++
 		r = &rec{End: false, H: id, R: int32(m.Cycle), Step: stepString(id, op.StepLen)}
 		msg = types.EventDataRoundState{Height: r.H, Round: r.R, Step: r.Step}
+	case opPartWrite, opPartSync:
+		id := m.NextID
+		m.NextID++
+		r = &rec{Part: true, H: id, R: int32(m.Cycle), Step: stepString(id, op.StepLen)}
+		var err error
+		if msg, err = makePartMsg(r.H, r.R, []byte(r.Step)); err != nil {
+			return harnessErr{"building a BlockPartMessage WAL message: " + err.Error()}
+		}
 	case opEndSync, opEndWrite:
 		m.NextH += op.Gap
 		r = &rec{End: true, H: m.NextH}
@@ -576,10 +607,10 @@ func (lv *live) do(op opSpec) error {
 	acked := false
 	verb := ""
 	switch op.Kind {
-	case opWrite, opEndWrite:
+	case opWrite, opEndWrite, opPartWrite:
 		err = lv.wal.Write(msg)
 		verb = "Write"
-	case opWriteSync, opEndSync:
+	case opWriteSync, opEndSync, opPartSync:
 		err = lv.wal.WriteSync(msg)
 		acked = err == nil
 		verb = "WriteSync"
@@ -875,4 +906,28 @@ func tailOf(s []string, n int) []string {
 		return s[len(s)-n:]
 	}
 	return s
+}
+
+// makePartMsg returns the WAL message a node logs for a received block part:
+// msgInfo{Msg: &BlockPartMessage{...}}.  msgInfo is unexported; the value is
+// obtained from the exported decoder, which builds it from the protobuf form.
+func makePartMsg(height int64, round int32, bytes []byte) (consensus.WALMessage, error) {
+	pb := tmcons.TimedWALMessage{Time: time.Unix(1700000000, 0).UTC(), Msg: &tmcons.WALMessage{Sum: &tmcons.WALMessage_MsgInfo{MsgInfo: &tmcons.MsgInfo{
+		PeerID: "verif-peer",
+		Msg: tmcons.Message{Sum: &tmcons.Message_BlockPart{BlockPart: &tmcons.BlockPart{Height: height, Round: round,
+			Part: tmproto.Part{Index: 0, Bytes: bytes, Proof: tmcrypto.Proof{Total: 1, Index: 0, LeafHash: make([]byte, 32)}}}}},
+	}}}}
+	data, err := pb.Marshal()
+	if err != nil {
+		return nil, err
+	}
+	frame := make([]byte, 8+len(data))
+	binary.BigEndian.PutUint32(frame[0:4], crc32.Checksum(data, castagnoli))
+	binary.BigEndian.PutUint32(frame[4:8], uint32(len(data)))
+	copy(frame[8:], data)
+	t, err := consensus.NewWALDecoder(bytes2.NewReader(frame)).Decode()
+	if err != nil {
+		return nil, err
+	}
+	return t.Msg, nil
 }
